@@ -60,6 +60,38 @@ def dev_attempt(tier, seed, rest):
         print("FINDING", f["def"], f["cfg"], f["kind"], f["what"], f["input"], "exp", f["expected"], "got", f["got"])
 
 
+def dev_lex(tier, seed, rest):
+    from lexrun import lex_run
+    defs = base_corpus(tier, seed)
+    if rest:
+        defs = [d for d in defs if any(r in d["id"] for r in rest)]
+    r = lex_run("devlex", defs, tier, seed, ALL_CFGS, 4 if tier == "quick" else 6, 4 if tier == "quick" else 5)
+    print(json.dumps({k: r[k] for k in ("tlc", "defs", "explored", "behaviours", "n_findings", "requests", "runs", "wall")}))
+    seen = set()
+    for f in r["findings"]:
+        k = (f["def"], f["kind"], f["cfg"])
+        if k in seen:
+            continue
+        seen.add(k)
+        print("FINDING", f["def"], f["cfg"], f["kind"], f["input"], f.get("splits"), f["why"])
+
+
+def dev_trace(tier, seed, rest):
+    from tracerun import trace_run
+    defs = base_corpus(tier, seed)
+    if rest:
+        defs = [d for d in defs if any(r in d["id"] for r in rest)]
+    r = trace_run("devtrace", defs, tier, seed, ALL_CFGS)
+    print(json.dumps({k: r[k] for k in ("defs", "explored", "requests", "runs", "distinct_traces", "accepted", "events", "n_findings", "wall")}))
+    seen = set()
+    for f in r["findings"]:
+        k = (f["def"], f["kind"])
+        if k in seen:
+            continue
+        seen.add(k)
+        print("FINDING", f["def"], f["cfg"], f["kind"], f["input"], f.get("partial"), f.get("event"), f.get("trace"))
+
+
 def main(argv):
     tier, seed, rest = args_of(argv)
     if not rest:
@@ -69,6 +101,12 @@ def main(argv):
     try:
         if prop == "dev-attempt":
             dev_attempt(tier, seed, rest[1:])
+            return
+        if prop == "dev-trace":
+            dev_trace(tier, seed, rest[1:])
+            return
+        if prop == "dev-lex":
+            dev_lex(tier, seed, rest[1:])
             return
         import props
         fn = getattr(props, "check_" + prop, None)
